@@ -16,14 +16,14 @@ BASELINE = json.load(open("/root/.vp/BASELINE.json")) if os.path.exists("/root/.
 
 
 def run_suite(d):
-    xml = os.path.join(d, "junit.xml")
-    p = subprocess.run(["/venv/bin/python", "-m", "pytest", "-q", "-p", "no:cacheprovider", "--timeout=900", "-x", "-q",
+    p = subprocess.run(["/venv/bin/python", "-m", "pytest", "-q", "-p", "no:cacheprovider", "--timeout=900", "-x", "-q", "-rf",
                         "--deselect", "tests/core/test_drawing.py::test_handler",
                         "--deselect", "tests/sql/column/test_column_select_column_dialect_specific.py::test_tsql_assignment_operator",
                         "--deselect", "tests/sql/table/multiple_statements/test_tmp_table.py::test_create_after_drop",
                         "--deselect", "tests/sql/table/test_create.py::test_create_if_not_exist"],
                        cwd=d, capture_output=True, text=True, env={k: v for k, v in os.environ.items() if k != "SQLLINEAGE_VERIF"})
-    tail = p.stdout.strip().splitlines()[-1] if p.stdout.strip() else ""
+    failed = [l.split()[1] for l in p.stdout.splitlines() if l.startswith("FAILED ")]
+    tail = (failed[0] if failed else (p.stdout.strip().splitlines()[-1] if p.stdout.strip() else ""))
     return p.returncode == 0, tail
 
 
@@ -51,11 +51,17 @@ def main():
             with ThreadPoolExecutor(max_workers=12) as ex:
                 for mu, (ok, tail) in zip(muts, ex.map(lambda m_: run_suite(dirs[m_["id"]]), muts)):
                     suite_ok[mu["id"]] = (ok, tail)
-                    print(f"suite {mu['id']}: {'passes' if ok else 'KILLED BY SUITE'} ({tail})", flush=True)
+                    print(f"suite {mu['id']}: {'passes' if ok else 'fails (will be re-run alone)'} ({tail})", flush=True)
+            # a failure under 12 parallel suites may be load-induced: confirm each one alone
+            for mu in muts:
+                if suite_ok[mu["id"]][0] is False:
+                    ok, tail = run_suite(dirs[mu["id"]])
+                    suite_ok[mu["id"]] = (ok, tail)
+                    print(f"suite {mu['id']} alone: {'passes' if ok else 'KILLED BY SUITE'} ({tail})", flush=True)
         for mu in muts:
             ok_suite = suite_ok.get(mu["id"], (None, ""))[0]
             if ok_suite is False:
-                results.append({"id": mu["id"], "property": mu["property"], "note": mu["note"], "suite_passes": False, "detected": None})
+                results.append({"id": mu["id"], "property": mu["property"], "note": mu["note"], "suite_passes": False, "killed_by": suite_ok[mu["id"]][1], "detected": None, "expect": mu.get("expect", "detect")})
                 continue
             t0 = time.time()
             env = dict(os.environ, VERIF_REPO=dirs[mu["id"]], VERIF_MIN_BUDGET_S="5", VERIF_NO_EVIDENCE="1")
